@@ -147,7 +147,7 @@ func init() {
 			"one ONCE call site per query; no LIMIT; function errors under ASYNC belong to C10/C19; SPIN completion before return is not required (only 'adds no column')",
 			"ASYNC calls appear as direct select-list items (the README rules out ASYNC inside FROM clauses)",
 		},
-		Floor:         []string{"q.plain", "q.async", "q.spinasync", "q.spin", "q.once", "q.await-async", "star", "where", "nested", "shape.union", "shape.cte", "arg.null", "page", "page.empty", "joinop.derived", "joinop.both", "lat.zero", "lat.yield", "lat.random", "lat.skewed", "lat.straggler", "table.empty", "imm.async", "imm.spin", "imm.spinasync", "imm.harness", "imm.harness-mixedcase"},
+		Floor:         []string{"q.plain", "q.async", "q.spinasync", "q.spin", "q.once", "q.await-async", "star", "where", "nested", "shape.union", "shape.cte", "shape.multidim", "arg.null", "page", "page.empty", "joinop.derived", "joinop.both", "lat.zero", "lat.yield", "lat.random", "lat.skewed", "lat.straggler", "table.empty", "imm.async", "imm.spin", "imm.spinasync", "imm.harness", "imm.harness-mixedcase"},
 		MinNontrivial: 30,
 		Phases: []fw.Phase{
 			{Name: "ledger", N: func(t fw.Tier) int { return pick(t, 2500, 40000) }, Run: func(c *fw.Case) { c14Ledger(c, false) }},
@@ -200,7 +200,7 @@ func c14Ledger(c *fw.Case, race bool) {
 	}
 	t := gen.RandTable(c.R, gen.TableSpec{Name: "t1", MaxRows: 12, NumCols: 2, StrCols: 1, BoolCols: 1, NullCols: 1, StrStyle: gen.Plain})
 	force := ""
-	forced := []string{"q.plain", "q.async", "q.spinasync", "q.spin", "q.once", "q.await-async", "star", "where", "nested", "table.empty", "shape.union", "shape.cte", "arg.null", "page", "page.empty"}
+	forced := []string{"q.plain", "q.async", "q.spinasync", "q.spin", "q.once", "q.await-async", "star", "where", "nested", "table.empty", "shape.union", "shape.cte", "shape.multidim", "arg.null", "page", "page.empty"}
 	if c.Idx < 3*len(forced) {
 		force = forced[c.Idx%len(forced)]
 	}
@@ -218,6 +218,9 @@ func c14Ledger(c *fw.Case, race bool) {
 		shape = "union"
 	case force == "shape.cte" || (force == "" && !nested && c.Chance(0.12)):
 		shape = "cte"
+	case force == "shape.multidim" || (force == "" && !nested && c.Chance(0.12)):
+		// the table's rows spread over an array of arrays (2 or 3 levels)
+		shape = "multidim"
 	}
 	mult := 1
 	if shape == "union" {
@@ -481,6 +484,49 @@ func c14Ledger(c *fw.Case, race bool) {
 	profiles := c14Profiles
 	nprof := pick(c.Tier, 3, 12)
 	doc := DocOf(t)
+	if shape == "multidim" {
+		// leaves of 0..3 rows in source order; optionally grouped into planes
+		wantOf := map[int32]any{}
+		for i, row := range kept {
+			wantOf[toI32(row["rid"])] = want[i]
+		}
+		var leaves, wantLeaves []any
+		for i := 0; i < len(t.Rows) || len(leaves) == 0; {
+			n := c.Intn(4)
+			var leaf, wl []any
+			for ; n > 0 && i < len(t.Rows); n-- {
+				leaf = append(leaf, t.Rows[i])
+				if w, ok := wantOf[toI32(t.Rows[i]["rid"])]; ok {
+					wl = append(wl, w)
+				}
+				i++
+			}
+			leaves, wantLeaves = append(leaves, normEmpty(leaf)), append(wantLeaves, wl)
+			if len(t.Rows) == 0 {
+				break
+			}
+		}
+		nested3 := c.Chance(0.4)
+		if nested3 {
+			var planes, wantPlanes []any
+			for i := 0; i < len(leaves); {
+				n := 1 + c.Intn(2)
+				if i+n > len(leaves) {
+					n = len(leaves) - i
+				}
+				planes, wantPlanes = append(planes, leaves[i:i+n]), append(wantPlanes, wantLeaves[i:i+n])
+				i += n
+			}
+			leaves, wantLeaves = planes, wantPlanes
+		}
+		for i := range leaves {
+			if leaves[i] == nil {
+				leaves[i] = []any{}
+			}
+		}
+		doc = map[string]any{"t1": leaves}
+		want = wantLeaves
+	}
 	hasBG := false
 	for _, it := range items {
 		if it.qual == "ASYNC" || it.qual == "SPINASYNC" || it.qual == "AWAIT-ASYNC" {
@@ -575,7 +621,7 @@ func c14Ledger(c *fw.Case, race bool) {
 			c.Violate("not-plain", fmt.Sprintf("unresolved or non-plain value in the result: %s", strings.Join(probs, "; ")), det)
 			return
 		}
-		if !(len(o.Rows) == 0 && len(want) == 0) && !sameSelValue(o.Rows, want) {
+		if !(len(o.Rows) == 0 && len(want) == 0) && !c14Same(o.Rows, want) {
 			waitLedgerQuiet()
 			kind := "value"
 			if len(o.Rows) == len(want) && len(want) > 0 {
@@ -598,7 +644,7 @@ func c14Ledger(c *fw.Case, race bool) {
 	base := vfEntered.Load()
 	plain := Run(val.CopyMap(doc), render(true))
 	waitCalls(base, expectedCalls)
-	if !plain.OK() || (!(len(plain.Rows) == 0 && len(want) == 0) && !sameSelValue(plain.Rows, want)) {
+	if !plain.OK() || (!(len(plain.Rows) == 0 && len(want) == 0) && !c14Same(plain.Rows, want)) {
 		c.Violate("unqualified-differs", fmt.Sprintf("the query without the ASYNC qualifier returns %s, expected %s", short(fmt.Sprint(plain.Describe()), 200), short(val.Canon(want), 200)), map[string]any{"sql": render(true), "doc": doc})
 		return
 	}
@@ -761,4 +807,32 @@ func c14JoinOperand(c *fw.Case) {
 	if len(t.Rows) >= 2 {
 		c.Nontrivial(sql + "|" + val.Canon(t.Array()))
 	}
+}
+
+
+// c14Same compares a (possibly nested) result with the expected structure;
+// an empty inner result may come back as nil or as an empty array.
+func c14Same(got any, want any) bool {
+	switch w := want.(type) {
+	case []any:
+		g, ok := got.([]any)
+		if !ok {
+			return got == nil && len(w) == 0
+		}
+		if len(g) != len(w) {
+			return false
+		}
+		for i := range w {
+			if !c14Same(g[i], w[i]) {
+				return false
+			}
+		}
+		return true
+	case nil:
+		if g, ok := got.([]any); ok {
+			return len(g) == 0
+		}
+		return got == nil
+	}
+	return sameSelValue(got, want)
 }
